@@ -614,11 +614,11 @@ impl Monitor for C08 {
         let np = c08_pins().len() as u64;
         let mut v = split_chunks("pin", 0, np, np, 1);
         let (ns, nl) = match tier {
-            Tier::Quick => (12_000, 300),
-            Tier::Thorough => (40_000, 2_000),
+            Tier::Quick => (40_000, 800),
+            Tier::Thorough => (200_000, 6_000),
         };
-        v.extend(split_chunks("small", seed_offset(seed, "C08s", 40_000), ns, 40_000, 200));
-        v.extend(split_chunks("large", seed_offset(seed, "C08l", 2_000), nl, 2_000, 10));
+        v.extend(split_chunks("small", seed_offset(seed, "C08s", 200_000), ns, 200_000, 200));
+        v.extend(split_chunks("large", seed_offset(seed, "C08l", 6_000), nl, 6_000, 10));
         v
     }
     fn run_case(&self, kind: &str, idx: u64) -> CaseResult {
